@@ -97,7 +97,12 @@ def step (s : St) (toks : List String) : St × String :=
   match toks with
   | "ctx" :: rest =>
     match (kv rest "A").bind String.toInt?, (kv rest "D").bind String.toInt? with
-    | some a, some d => ({ A := a, D := d }, "ok")
+    | some a, some d =>
+      -- `M` = Evidence.MaxBytes of the chain's consensus params: the pool never reads it (the
+      -- proposer passes it to PendingEvidence), so the model has no such field
+      match kv rest "M" with
+      | none => ({ A := a, D := d }, "ok")
+      | some m => if m.toInt?.isSome then ({ A := a, D := d }, "ok") else (s, "bad-op")
     | _, _ => (s, "bad-op")
   | "blk" :: rest =>
     match (kv rest "t").bind String.toInt?, (kv rest "vals").bind (fun v => (splitComma v).mapM parseVal) with
